@@ -707,6 +707,8 @@ class ExprMixin:
         cn = obj.ty[1]
         if attr == "__class__":
             return k(self.type_of(obj), st)
+        if cn == "type" and attr in ("__name__", "__qualname__", "__module__"):
+            return k(PyConst("<name>"), st)
         if cn is None:
             if attr in ("close", "send", "throw", "__await__", "cr_frame"):
                 f = z3.Function("hasattr_" + attr, RefS, z3.BoolSort())
